@@ -197,7 +197,9 @@ class Check:
         self.assumptions = []
         self.notes = {}
         self.known = [k for k in load_known_findings() if k.get("property") == pid]
-        self._replay_dir = os.path.join(VERIF, "replays")
+        # VERIF_OUT redirects evidence / replay files (used when checks are run against a scratch copy of the repo)
+        self._out = os.environ.get("VERIF_OUT") or VERIF
+        self._replay_dir = os.path.join(self._out, "replays")
 
     # --- TLC ---
     def tlc(self, module, cfg, **kw):
@@ -275,8 +277,8 @@ class Check:
         cov.update(self.notes)
         ev = dict(property_id=self.pid, tier=self.tier, seed=self.seed, level=level, coverage=cov,
                   assumptions=self.assumptions, wall_s=round(wall, 2), violations=len(seen))
-        os.makedirs(os.path.join(VERIF, "evidence"), exist_ok=True)
-        with open(os.path.join(VERIF, "evidence", self.pid + ".json"), "w") as f:
+        os.makedirs(os.path.join(self._out, "evidence"), exist_ok=True)
+        with open(os.path.join(self._out, "evidence", self.pid + ".json"), "w") as f:
             json.dump(ev, f, indent=1, default=str)
         print("%s tier=%s seed=%d states=%d transitions=%d replayed=%d validated=%d evals=%d known=%d violations=%d wall=%.1fs" % (
             self.pid, self.tier, self.seed, self.states, self.transitions, self.replayed, self.validated,
